@@ -22,7 +22,7 @@ ASSUMPTIONS = [
     'population dimension names are set to the likelihood parameter names (as ProblemModellingController does)',
     'individual parameter values are positive (support of the multiplicative / log-normal error models)']
 REQUIRED = ['kind:gauss', 'kind:lognorm', 'kind:trunc', 'kind:pooled', 'kind:hetero', 'cov', 'comp', 'red', 'bare',
-            'noncentered', 'mixed_special', 'special_not_last', 'n_ids=1', 'noncentered_zero_scale']
+            'noncentered', 'mixed_special', 'special_not_last', 'n_ids=1', 'noncentered_zero_scale', 'reduced_part:all_fixed']
 
 
 @st.composite
